@@ -488,6 +488,8 @@ def compile_augassign_expression(compiler, expr, root, target, values):
 
     op = a_ops[root][0]
     target = compiler._storeize(target, compiler.compile(target))
+    if not isinstance(target, (ast.Name, ast.Attribute, ast.Subscript)):
+        compiler._syntax_error(expr[1], "illegal target for augmented assignment")
     ret = compiler.compile(values[0])
     return ret + asty.AugAssign(expr, target=target, value=ret.force_expr, op=op())
 
@@ -573,6 +575,8 @@ def compile_assign(
         if is_assignment_expr:
             node = asty.NamedExpr
         elif ann is not None:
+            if not isinstance(st_targets[0], (ast.Name, ast.Attribute, ast.Subscript)):
+                compiler._syntax_error(target, "illegal target for annotated assignment")
             node = lambda x, **kw: asty.AnnAssign(
                 x,
                 annotation=ann_result.force_expr,
